@@ -320,6 +320,13 @@ func genC04(r *Rng, tier string) []Case {
 				continue
 			}
 			cs = append(cs, Case{Op: "smb.rt", MArgs: []string{name, e0, env}, SArgs: []string{name, e0, env}, Tag: "rt.consistent"})
+			if k%4 == 2 {
+				// the same message decoded into a receiver that holds the field values of another message: nothing of the
+				// earlier one may survive (an optional field absent from this message, a list that is appended to)
+				if used := genEnv(rr, g, true, false, k%8 == 2); used != "" {
+					cs = append(cs, Case{Op: "smb.rt", MArgs: []string{name, used, env}, SArgs: []string{name, used, env}, Tag: "rt.used-receiver"})
+				}
+			}
 			if k%4 == 3 { // inconsistent assignments: tie only (the property is silent)
 				bad := genEnv(rr, g, false, false, false)
 				cs = append(cs, Case{Op: "smb.rt", MArgs: []string{name, e0, bad}, SArgs: []string{name, e0, bad}, Tag: "rt.unconstrained"})
